@@ -607,7 +607,15 @@ def _kernel_np(name, u):
 def _design_np(Z, degree):
     if Z.ndim == 1:
         return np.column_stack([Z ** k for k in range(degree + 1)])
-    return np.column_stack([Z[:, 0] ** e1 * Z[:, 1] ** e2 for e1, e2 in monos2(degree)])
+    if Z.shape[1] == 2:
+        return np.column_stack([Z[:, 0] ** e1 * Z[:, 1] ** e2 for e1, e2 in monos2(degree)])
+    import itertools
+
+    cols = [np.ones(len(Z))]
+    for t in range(1, degree + 1):
+        for comb in itertools.combinations_with_replacement(range(Z.shape[1]), t):
+            cols.append(np.prod([Z[:, c] for c in comb], axis=0))
+    return np.column_stack(cols)
 
 
 def reference_wls(x, y, q, h, kernel, degree):
@@ -808,6 +816,19 @@ def run_impl(case):
                             lp.predict(y=yint, x=x, x_new=qa).tolist()]
     out["arraylike_f32"] = [np.asarray(lp.predict(y=y.astype(np.float32), x=x, x_new=qa), dtype=float).ravel().tolist(),
                             lp.predict(y=y.astype(np.float32).astype(float), x=x, x_new=qa).tolist()]
+    # results KEPT across calls on one smoother with the same number of query points (other responses, other query points,
+    # another bandwidth through the attribute): compared AFTER all the calls with fresh smoothers; no shared memory
+    lpk = LocalPolynomial(kernel_name=case["kernel"], bandwidth=h, degree=case["degree"])
+    qrev = q[::-1].copy()
+    kept = [lpk.predict(y=y, x=x, x_new=q), lpk.predict(y=y2, x=x, x_new=q), lpk.predict(y=float(F(case["alpha"])) * y + float(F(case["beta"])) * y2, x=x, x_new=q),
+            lpk.predict(y=y, x=x, x_new=qrev)]
+    lpk.bandwidth = 2.0 * h
+    kept.append(lpk.predict(y=y, x=x, x_new=q))
+    lpk.bandwidth = h
+    kept.append(lpk.predict(y=y, x=x, x_new=q))
+    out["kept"] = [np.asarray(a, dtype=float).tolist() for a in kept]
+    out["kept_shares"] = bool(any(np.shares_memory(kept[i], kept[j]) for i in range(len(kept)) for j in range(i)))
+    out["kept_ref_2h"] = LocalPolynomial(kernel_name=case["kernel"], bandwidth=2.0 * h, degree=case["degree"]).predict(y=y, x=x, x_new=q).tolist()
     # value dtypes of the array arguments: an integer-valued design handed over as int64 / int32 / float32, integer-valued
     # query points as int64 — the same numbers must give the same fit
     if np.all(x == np.round(x)) and np.abs(x).max() < 2 ** 31:
@@ -840,6 +861,15 @@ def run_impl(case):
     if case["dim"] == 2:
         xs, qs = np.asfortranarray(xs), np.asfortranarray(qs)
     out["strided"] = lp.predict(y=ys, x=xs, x_new=qs).tolist()
+    lay = {}
+    xn, yn, qn = x[::-1].copy()[::-1], y[::-1].copy()[::-1], q[::-1].copy()[::-1]                       # negative strides
+    lay["negative strides"] = lp.predict(y=yn, x=xn, x_new=qn).tolist()
+    if case["dim"] == 2:
+        lay["transposed views"] = lp.predict(y=y, x=np.ascontiguousarray(x.T).T, x_new=np.ascontiguousarray(q.T).T).tolist()
+        big_ = np.zeros((x.shape[0], 5))
+        big_[:, 1::2] = x
+        lay["column slice of a wider array"] = lp.predict(y=y, x=big_[:, 1::2], x_new=q).tolist()
+    out["layouts"] = lay
     # locality: change the responses that lie outside every query window (compact kernels)
     if case["kernel"] != "gaussian":
         d = np.abs(x[:, None] - q[None, :]) if case["dim"] == 1 else np.sqrt(((x[:, None, :] - q[None, :, :]) ** 2).sum(axis=2))
@@ -1153,6 +1183,18 @@ def oracle(case, impl):
             a_, b_ = impl[key]
             if not all(near(f, g, max(sc, 8 * sc if key == "arraylike_int" else sc), tolr) for f, g in zip(a_, b_)):
                 bad("array_like_inputs", f"{key[10:]} responses: estimates {a_} but the same numbers as float64 give {b_}", dom)
+    if "kept" in impl:
+        kp = impl["kept"]
+        refs = [impl["base"], impl["base2"], impl["lin"], impl["base"][::-1], impl["kept_ref_2h"], impl["base"]]
+        names = ["fit(y)", "fit(y2)", "fit(a y + b y2)", "fit(y) at the reversed query points", "fit(y) with twice the bandwidth", "fit(y) again"]
+        sc2k = max([abs(float(F(t))) for t in case["y2"]] + [1e-300])
+        for r_, ref_, nm_ in zip(kp, refs, names):
+            scale_k = sc + sc2k * (1 + abs(float(F(case["beta"])))) + sc * abs(float(F(case["alpha"])))
+            if len(r_) != len(ref_) or not all(near(f, g, scale_k, 1e-9) for f, g in zip(r_, ref_)):
+                bad("results_kept", f"the result of {nm_}, kept while further predict calls were made on the same LocalPolynomial object, reads {r_[:3]} afterwards; a fresh smoother gives {ref_[:3]} ({case['kernel']}, degree {case['degree']}, n={case['n']})", dom)
+                break
+        if impl.get("kept_shares"):
+            bad("results_kept", "two results returned by predict calls on one LocalPolynomial object share memory", dom)
     for name, r in impl.get("dtypes", {}).items():
         if isinstance(r, str):
             bad("dtype_inputs", f"{name}: raises {r} (the same numbers as float64 are accepted)", dom)
@@ -1160,6 +1202,9 @@ def oracle(case, impl):
         a_, b_ = (r, impl["base"][:3]) if not (len(r) == 2 and isinstance(r[0], list)) else r
         if len(a_) != len(b_) or not all(near(f, g, sc, 1e-9) for f, g in zip(a_, b_)):
             bad("dtype_inputs", f"{name}: estimates {a_[:3]} but the same numbers as float64 give {b_[:3]} ({case['kernel']}, degree {case['degree']}, h={case['h']}, n={case['n']}, design {case['design']})", dom)
+    for name, r in impl.get("layouts", {}).items():
+        if len(r) != len(impl["base"]) or not all(near(f, g, sc, 1e-10) for f, g in zip(r, impl["base"])):
+            bad("memory_layout", f"inputs as {name}: estimates {r[:3]}, contiguous ones {impl['base'][:3]}", dom)
     for j, (f, g) in enumerate(zip(impl["strided"], impl["base"])):
         if not near(f, g, sc, 1e-10):
             bad("memory_layout", f"strided / Fortran-ordered inputs give {f!r}, contiguous ones {g!r} (query {j})", dom)
